@@ -1,7 +1,123 @@
-/- Driver glue for C01: case lines `c01.<sub> <args…> | <impl…>` (stub until the property is built) -/
+/-
+  Driver glue for C01 and C02 (they share the pipeline trace):
+    c01.run / c02.run <procs> <cap> <lowmem> <bcount> <workers> <retry> <dq> <failpat> <dqfailpat>
+            <chain> <jitter> <nsrc> <nev> (<src> s<k> <spec-hex>)…  |  <trace tokens…> <idle|stuck>
+  The model replays the M1 ops of the trace (Core.step?) and echoes the trace when every step
+  is enabled, `reject@<i> <token>` otherwise; P is the Spec oracle on the trace itself.
+-/
 import FileD.Prelude.Tok
+import FileD.Model.Core
+import FileD.Spec.C01
 namespace FileD.DrvC01
+open FileD FileD.Core Tok
 
-def handle (_cmd : String) (_args _impl : List String) : Option (String × String) := none
+structure EvInfo where
+  off : Nat
+  st  : Nat
+deriving Repr
+
+/-- events of the case: offsets are src*100000 + 10*(index within source + 1), stream index src*1000+k -/
+def parseEvents : Nat → List String → List (Nat × Nat) → Option (List EvInfo)
+  | 0, [], _ => some []
+  | 0, _ :: _, _ => none
+  | n+1, src :: stream :: _spec :: rest, counts => do
+    let s ← nat? src
+    let k ← (stream.drop 1).toNat?
+    let c := (counts.find? (·.1 == s)).map (·.2) |>.getD 0
+    let counts' := (s, c + 1) :: counts.filter (·.1 != s)
+    let more ← parseEvents n rest counts'
+    pure (⟨s * 100000 + 10 * (c + 1), s * 1000 + k⟩ :: more)
+  | _, _, _ => none
+
+def evOf (infos : List EvInfo) (seqs : List (Nat × Nat)) (off : Nat) : Option Ev := do
+  let i ← infos.find? (·.off == off)
+  let q ← seqs.find? (·.1 == off)
+  pure ⟨i.st, q.2, off⟩
+
+def parseOffs (infos : List EvInfo) (seqs : List (Nat × Nat)) (s : String) : Option (List Ev) :=
+  if s = "" then some [] else (s.splitOn ",").mapM fun t => do evOf infos seqs (← nat? t)
+
+def isDQ (s : String) : Option Bool := if s = "M" then some false else if s = "D" then some true else none
+
+/-- one trace token → M1 op (none = token of the stream/processor layer, not an M1 step) -/
+def tokOp (infos : List EvInfo) (seqs : List (Nat × Nat)) (tok : String) : Option (Option Op) :=
+  match tok.splitOn ":" with
+  | ["put", o, q] => do
+    let off ← nat? o; let seq ← nat? q
+    let i ← infos.find? (·.off == off)
+    pure (some (.accept ⟨i.st, seq, off⟩))
+  | ["fin", o, f] => do
+    let off ← nat? o
+    match f with
+    | "1" => pure (some (.drop (← evOf infos seqs off)))
+    | "3" => pure (some (.commit (← evOf infos seqs off)))
+    | _ => pure none
+  | ["add", o, b] => do pure (some (.add (← isDQ b) (← evOf infos seqs (← nat? o))))
+  | ["seal", k, b] => do pure (some (.sealB (← isDQ b) (← nat? k)))
+  | ["bcm", k, b] => do pure (some (.bcommit (← isDQ b) (← nat? k)))
+  | ["send", b, k, r, offs] => do
+    let evs ← parseOffs infos seqs offs
+    if r = "ok" then pure (some (.sendOk (← isDQ b) (← nat? k) evs))
+    else pure (some (.sendFail (← isDQ b) (← nat? k) evs))
+  | ["giveup", b, offs] => do pure (some (.giveUp (← isDQ b) (← parseOffs infos seqs offs)))
+  | _ => pure none
+
+/-- offsets ↦ seq from the `put` tokens -/
+def seqsOf (trace : List String) : List (Nat × Nat) :=
+  trace.filterMap fun t =>
+    match t.splitOn ":" with
+    | ["put", o, q] => match o.toNat?, q.toNat? with
+      | some a, some b => some (a, b)
+      | _, _ => none
+    | _ => none
+
+def toOps (infos : List EvInfo) (trace : List String) : Option (List (String × Op)) :=
+  let seqs := seqsOf trace
+  let rec go : List String → Option (List (String × Op))
+    | [] => some []
+    | t :: ts => do
+      let o ← tokOp infos seqs t
+      let rest ← go ts
+      match o with
+      | some op => pure ((t, op) :: rest)
+      | none => pure rest
+  go trace
+
+def replay (hasDQ : Bool) (ops : List (String × Op)) : Option (Nat × String) :=
+  let rec go (s : State) (i : Nat) : List (String × Op) → Option (Nat × String)
+    | [] => none
+    | (t, op) :: rest =>
+      match step? s op with
+      | none => some (i, t)
+      | some s' => go s' (i + 1) rest
+  go (init hasDQ) 0 ops
+
+def handle (cmd : String) (args impl : List String) : Option (String × String) :=
+  match args with
+  | _procs :: _cap :: _lowmem :: _bcount :: _workers :: _retry :: dq :: _fp :: _dfp :: _chain :: _jit :: _nsrc :: nev :: rest => do
+    let hasDQ ← bool? dq
+    let n ← nat? nev
+    let infos ← parseEvents n rest []
+    match impl.reverse with
+    | [] => none
+    | last :: revTrace =>
+      if last ≠ "idle" ∧ last ≠ "stuck" then
+        -- harness-level failure token (panic:…, bad-case…): nothing to replay
+        some (unwords impl, "fail:harness:0:0")
+      else
+      let trace := revTrace.reverse
+      match toOps infos trace with
+      | none => some ("bad-trace", "fail:bad-trace:0:0")
+      | some ops =>
+        let m := match replay hasDQ ops with
+          | none => unwords impl
+          | some (i, t) => s!"reject@{i} {t}"
+        let opl := ops.map (·.2)
+        let p :=
+          if cmd = "c01.run" then SpecC01.verdict (SpecC01.frontier hasDQ opl)
+          else SpecC01.verdict (SpecC01.order hasDQ (last = "idle") opl)
+        let p := if last = "stuck" ∧ p = "ok" ∧ cmd = "c02.run" then "fail:stuck:0:0" else p
+        some (m, p)
+  | _ => none
 
 end FileD.DrvC01
